@@ -20,6 +20,11 @@ func TestStatic(t *testing.T) {
 	}
 	h := NewHarness()
 	defer h.WriteStats()
+	if os.Getenv("VP_SHARD") == "0" {
+		if v := h.RunEnumerated(def); v != nil {
+			t.Fatalf("%s", v.String())
+		}
+	}
 	rapid.Check(t, h.Property(def))
 }
 
